@@ -81,6 +81,12 @@ def build_record(fields, style):
                 cls = type(nm, (getattr(MOD, base),), {"__annotations__": dict(part), "__module__": "c17_types"})
                 setattr(MOD, nm, cls)
             base = nm
+            if style.get("touch"):
+                # the class is serialised as soon as it is declared: the base is in use before the derived one exists
+                try:
+                    std.count_bits(getattr(MOD, nm))
+                except AssertionError:
+                    pass        # a record without fields cannot be serialised
         assert pos == len(names)
         return getattr(MOD, base)
     if how == "templ" and style.get("split"):
@@ -94,6 +100,11 @@ def build_record(fields, style):
             src += "".join("    %s: %s\n" % (n, e) for n, e in part) or "    pass\n"
             exec(src, MOD.__dict__)
             base = nm
+            if style.get("touch"):
+                try:
+                    std.count_bits(getattr(MOD, nm)[style["w"]])
+                except AssertionError:
+                    pass
         assert pos == len(names)
         return getattr(MOD, base)[style["w"]]
     if how == "templ":
@@ -331,7 +342,7 @@ def run_bitfield(c):
         r = {}
         try:
             vec = cohdl.Variable[BitVector[c["w"]]](c["vec"])
-            bf = cls(vec)
+            bf = cohdl.Variable[cls](BitVector[c["w"]](c["vec"])) if c.get("owned") else cls(vec)
             fld = resolve(bf, op["path"])
             d = decay(fld)
             r["kind"] = type(d).__mro__[0].__name__ if not isinstance(d, BitVector) else (
@@ -344,7 +355,7 @@ def run_bitfield(c):
                 d._assign(Bit(wr == "1"))
             else:
                 d._assign(type(d)(BitVector[len(wr)](wr)) if not type(d) is BitVector[len(wr)] else BitVector[len(wr)](wr))
-            r["after"] = bits_str(decay(vec))
+            r["after"] = bits_str(decay(std.to_bits(bf))) if c.get("owned") else bits_str(decay(vec))
             r["after_ser"] = bits_str(std.to_bits(bf))
         except BaseException as ex:  # noqa
             r["err"] = err_kind(ex)
